@@ -29,6 +29,19 @@ func main() {
 	var wg sync.WaitGroup
 	var mu sync.Mutex
 	ops := map[string]int{}
+	// two proprietary commands every goroutine decodes concurrently (registered before any goroutine starts;
+	// the random registrations below stay within 128..191)
+	lorawan.RegisterProprietaryMACCommand(true, 200, 2)
+	lorawan.RegisterProprietaryMACCommand(false, 201, 3)
+	var mismatches int32
+	mismatch := func(what string) {
+		mu.Lock()
+		mismatches++
+		if mismatches <= 5 {
+			fmt.Println("VALUE MISMATCH:", what)
+		}
+		mu.Unlock()
+	}
 	for g := 0; g < n; g++ {
 		r := root.Fork()
 		wg.Add(1)
@@ -40,9 +53,9 @@ func main() {
 				if r.Intn(3) == 0 {
 					runtime.Gosched()
 				}
-				switch r.Intn(7) {
+				switch r.Intn(9) {
 				case 0: // registration (write under Lock)
-					lorawan.RegisterProprietaryMACCommand(r.Bool(), lorawan.CID(128+r.Intn(128)), 1+r.Intn(4))
+					lorawan.RegisterProprietaryMACCommand(r.Bool(), lorawan.CID(128+r.Intn(64)), 1+r.Intn(4))
 					local["register"]++
 				case 1: // lookup (read under RLock)
 					lorawan.GetMACPayloadAndSize(r.Bool(), lorawan.CID(r.Intn(256)))
@@ -77,6 +90,40 @@ func main() {
 					p.EncryptFOpts(k)
 					p.DecryptFOpts(k)
 					local["crypt"]++
+				case 7: // decode proprietary commands of ONE (direction, CID) that all goroutines use; the values stay ours
+					wire := append([]byte{200}, r.Bytes(2)...)
+					up := true
+					if r.Bool() {
+						wire, up = append([]byte{201}, r.Bytes(3)...), false
+					}
+					var c1, c2 lorawan.MACCommand
+					c1.UnmarshalBinary(up, wire)
+					runtime.Gosched()
+					w2 := append([]byte{wire[0]}, r.Bytes(len(wire)-1)...)
+					c2.UnmarshalBinary(up, w2)
+					runtime.Gosched()
+					for _, x := range []struct {
+						c *lorawan.MACCommand
+						w []byte
+					}{{&c1, wire}, {&c2, w2}} {
+						if pp, ok := x.c.Payload.(*lorawan.ProprietaryMACCommandPayload); !ok || string(pp.Bytes) != string(x.w[1:]) {
+							mismatch(fmt.Sprintf("decoded proprietary command %x shows %+v", x.w, x.c.Payload))
+						}
+					}
+					local["proprietary"]++
+				case 8: // a frame keeps its encrypted FOpts while other goroutines encrypt theirs
+					p := framefmt.DataFrame(r, framefmt.Opt{MType: lorawan.UnconfirmedDataUp, Port: 5, FOptsBytes: 1 + r.Intn(15)})
+					var k lorawan.AES128Key
+					copy(k[:], r.Bytes(16))
+					if p.EncryptFOpts(k) == nil {
+						b1, e1 := p.MarshalBinary()
+						runtime.Gosched()
+						b2, e2 := p.MarshalBinary()
+						if e1 == nil && (e2 != nil || string(b1) != string(b2)) {
+							mismatch(fmt.Sprintf("frame with encrypted FOpts marshals to %x, later to %x", b1, b2))
+						}
+					}
+					local["fopts-kept"]++
 				case 5: // join-accept encrypt/decrypt
 					p := framefmt.JoinFrame(r, 1)
 					var k lorawan.AES128Key
@@ -101,5 +148,9 @@ func main() {
 		}(g)
 	}
 	wg.Wait()
+	if mismatches > 0 {
+		fmt.Printf("%d value mismatches\n", mismatches)
+		os.Exit(3)
+	}
 	fmt.Printf("goroutines=%d iterations=%d ops=%v", n, iters, ops)
 }
